@@ -20,9 +20,10 @@ def leaf_table():
 
 
 class AtomInfo(object):
-    __slots__ = ('arg', 'off', 'size', 'kind', 'path', 'hidden', 'through_ptr')
+    __slots__ = ('arg', 'off', 'size', 'kind', 'path', 'hidden', 'through_ptr', 'root_ty')
 
-    def __init__(self, arg, off, size, kind, path, through_ptr):
+    def __init__(self, arg, off, size, kind, path, through_ptr, root_ty=None):
+        self.root_ty = root_ty
         self.arg = arg
         self.off = off
         self.size = size
@@ -64,19 +65,21 @@ class Harness(object):
         return Interp(self.F, leaf_table(), self.opts)
 
     # ---------------------------------------------------------------- symbolic values
-    def sym(self, I, root, tyid, argi, name, base=0, through_ptr=False, overrides=None, depth=0):
+    def sym(self, I, root, tyid, argi, name, base=0, through_ptr=False, overrides=None, depth=0, root_ty=None):
         """typed symbolic value whose scalar leaves are fresh atoms"""
         F = self.F
         t = F.types[tyid]
         k = t.get('k')
         sz = t['sz']
+        if root_ty is None:
+            root_ty = tyid
         if overrides is not None and (argi, base) in overrides and not through_ptr:
             return overrides[(argi, base)]
         if sz == 0:
             return Agg(0)
         if k in ('int', 'float', 'bool', 'char'):
             a = tm.atom('%s@%d' % (name, base))
-            root.atoms[a] = AtomInfo(argi, base, sz, k, name, through_ptr)
+            root.atoms[a] = AtomInfo(argi, base, sz, k, name, through_ptr, root_ty)
             return a
         if k == 'ptr':
             pointee = F.types[t['to']]
@@ -86,7 +89,7 @@ class Harness(object):
                 if pointee['sz'] is None:
                     raise Abort('pointer to unsized %s' % pointee['n'])
                 obj = I.new_obj(pointee['sz'], name + '*', 'arg')
-                v = self.sym(I, root, t['to'], argi, name + '*', 0, True, overrides, depth + 1)
+                v = self.sym(I, root, t['to'], argi, name + '*', 0, True, overrides, depth + 1, t['to'])
                 I.write(obj, 0, pointee['sz'], v)
                 root.arg_objs.append((argi, base, obj.id, t['to'], t.get('mut'), None))
                 return tm.ptr(obj.id, 0)
@@ -118,14 +121,14 @@ class Harness(object):
         out = Agg(sz)
         if k == 'array':
             for j in range(t['count']):
-                v = self.sym(I, root, t['elem'], argi, name, base + j * t['stride'], through_ptr, overrides, depth + 1)
+                v = self.sym(I, root, t['elem'], argi, name, base + j * t['stride'], through_ptr, overrides, depth + 1, root_ty)
                 self._put(out, j * t['stride'], t['elem'], v)
             return out
         if 'fields' in t:
             fields = t['fields'][:1] if t.get('adt') == 'union' else t['fields']
             is_mask = t.get('def', '').rsplit('::', 1)[-1] in MASK_SIMD_TYPES
             for (off, fid, _n) in fields:
-                v = self.sym(I, root, fid, argi, name, base + off, through_ptr, overrides, depth + 1)
+                v = self.sym(I, root, fid, argi, name, base + off, through_ptr, overrides, depth + 1, root_ty)
                 self._put(out, off, fid, v)
             if is_mask and self._has_simd_field(t):
                 # SIMD masks are canonical by construction (R-WHO): every lane is all-ones or zero.
@@ -136,14 +139,14 @@ class Harness(object):
             return out
         if 'variants' in t:
             d = tm.atom('%s@%d.discr' % (name, base))
-            root.atoms[d] = AtomInfo(argi, base, 0, 'discr', name, through_ptr)
+            root.atoms[d] = AtomInfo(argi, base, 0, 'discr', name, through_ptr, root_ty)
             out.discr[(0, tyid)] = mk('discr_atom', d)
             vs = [v for v in t['variants']['vs'] if v['fields']]
             if len(vs) > 1:
                 raise Abort('symbolic multi-payload enum %s' % t['n'])
             for v in vs:
                 for (off, fid, _n) in v['fields']:
-                    x = self.sym(I, root, fid, argi, name, base + off, through_ptr, overrides, depth + 1)
+                    x = self.sym(I, root, fid, argi, name, base + off, through_ptr, overrides, depth + 1, root_ty)
                     self._put(out, off, fid, x)
             return out
         raise Abort('symbolic value of type %s' % t['n'])
@@ -224,7 +227,7 @@ def _slice_lazy(H, root, argi, name, elem_ty):
         hi = (off + size + esz - 1) // esz
         for j in range(lo, hi):
             if not I._overlaps(obj, j * esz, esz):
-                v = H.sym(I, root, elem_ty, argi, '%s[%d]' % (name, j), 0, True)
+                v = H.sym(I, root, elem_ty, argi, '%s[%d]' % (name, j), 0, True, None, 0, elem_ty)
                 I.write(obj, j * esz, esz, v)
         if tyid == 'touch':
             return None
